@@ -20,6 +20,7 @@ package main
 // SimpleManagementAction stubs (equal keys, prefix-sharing type names, ids 0 and >= 2^63).
 
 import (
+	"github.com/LindsayBradford/crem/internal/pkg/model/models/modumb"
 	"encoding/json"
 	"fmt"
 	"math"
@@ -1040,6 +1041,71 @@ func (p *c09PortRun) saverPath(r *Rng, walker model.Model, eng *c09Engine) {
 	}
 }
 
+// c09TieDecode: the explorer's decode route (NonDominanceModelArchive.Decompress, used on every return-to-base) into a
+// receiving model whose DECISION-VARIABLE VALUES already equal the archived state's although its action set differs.
+// crem's multi-objective dumb model makes such ties plentiful (every planning unit offers the same three actions).
+func c09TieDecode(c *Ctx, r *Rng) {
+	for _, units := range []int64{2, 5, 22, 100} { // 6, 15, 66 and 300 actions
+		build := func() model.Model {
+			m := modumb.NewModel().WithParameters(parameters.Map{"NumberOfPlanningUnits": units})
+			m.Initialise(model.AsIs)
+			return m
+		}
+		var a, b model.Model
+		if p := protect(func() { a, b = build(), build() }); p != "" {
+			c.Stat("tie decode: modumb model not buildable: " + clip(p, 60))
+			return
+		}
+		n := len(c09FlagsOf(a))
+		for k := 0; k < 12; k++ {
+			// A holds {i}, B holds {j}: same action type in another planning unit => equal variable vectors
+			typ := r.Intn(3)
+			pu1, pu2 := r.Intn(int(units)), r.Intn(int(units))
+			if pu1 == pu2 {
+				pu2 = (pu1 + 1) % int(units)
+			}
+			fa, fb := make([]bool, n), make([]bool, n)
+			fa[pu1*3+typ], fb[pu2*3+typ] = true, true
+			if k%3 == 2 { // two actions each
+				t2 := (typ + 1) % 3
+				fa[pu2*3+t2], fb[pu1*3+t2] = true, true
+			}
+			c09SetFlags(a, fa)
+			c09SetFlags(b, fb)
+			_, va := c09ValuesOfModel(a)
+			_, vb := c09ValuesOfModel(b)
+			tie := fmt.Sprint(va) == fmt.Sprint(vb)
+			var got []bool
+			if p := protect(func() {
+				var arch modelArchive.NonDominanceModelArchive
+				arch.Initialise()
+				st := (&modelArchive.ModelCompressor{}).Compress(a)
+				arch.Decompress(st, b)
+				got = c09FlagsOf(b)
+			}); p != "" {
+				c.Fail("no-panic", "portability:panic", "tie decode: "+p, nil)
+				return
+			}
+			c.Stat(fmt.Sprintf("tie decode: %d actions, values tie=%v", n, tie))
+			if c09Bits(got) != c09Bits(fa) {
+				c.Fail("lossless", "portability:active-set", fmt.Sprintf("multi-objective dumb model with %d actions: the archive decoded the state of set %s into an instance holding %s (decision-variable values equal: %v); the instance now holds %s",
+					n, c09ActiveBitsShort(fa), c09ActiveBitsShort(fb), tie, c09ActiveBitsShort(got)), nil)
+				return
+			}
+		}
+	}
+}
+
+func c09ActiveBitsShort(bits []bool) string {
+	var on []string
+	for i, b := range bits {
+		if b {
+			on = append(on, strconv.Itoa(i))
+		}
+	}
+	return "{" + strings.Join(on, ",") + "}"
+}
+
 func suitePortability(c *Ctx) {
 	if c.Replay != "" {
 		// protocol lines are self-contained for the model side; on the Go side a replay re-runs the
@@ -1107,6 +1173,9 @@ func suitePortability(c *Ctx) {
 
 	r := c.Rng.Fork() // Fork: util.go's streams for seeds k and k+1 are the same sequence shifted by one draw; forking decorrelates them
 	c09OrderLines(c, r.Fork())
+	if c.Shard == 0 {
+		c09TieDecode(c, r.Fork())
+	}
 	for _, ds := range datasets {
 		ref, err := c09BuildInstance(ds, c09KindModel)
 		if err != "" {
